@@ -185,6 +185,8 @@ func (w *World) ruleAlgoTables(rule string) {
 var nondetPrefixes = []string{"crypto/rand.", "math/rand.", "math/rand/v2.", "time.Now", "time.Since", "os.Getpid", "runtime."}
 
 func ruleC12(w *World) {
+	w.floor("C12.R6", 6)
+	w.ruleKeyImmutability("C12.R6")
 	w.floor("C12.R1", 4)
 	w.floor("C12.R2", 3)
 	w.floor("C12.R3", 2)
